@@ -416,71 +416,101 @@ func typeConstKind(name string) string {
 	return strings.ToLower(strings.TrimPrefix(name, "Type"))
 }
 
+func (c *Ctx) typeConsts() map[string]string {
+	out := map[string]string{} // constant value (exact string) -> kind
+	sc := c.Types.Scope()
+	for _, n := range sc.Names() {
+		k, ok := sc.Lookup(n).(*types.Const)
+		if !ok || !k.Exported() {
+			continue
+		}
+		if kind := typeConstKind(n); kind != "" {
+			out[k.Val().ExactString()] = kind
+		}
+	}
+	return out
+}
+
 func c12R3(c *Ctx) {
 	n := 0
+	consts := c.typeConsts()
 	for _, ct := range c.Inv().Conts {
 		name := "(*" + ct.Named.Obj().Name() + ").TypeOf"
 		fd := c.NeedDecl("C12.R3", name)
 		if fd == nil {
 			continue
 		}
-		ts := findTypeSwitch(fd.Body)
-		if ts == nil {
-			c.Ob("C12.R3", name, fd.Pos()).Undecided("no type switch")
+		par := soleParam(c, fd)
+		paths, why := c.runPaths(fd)
+		v := c.view(fd)
+		if why != "" || par == nil {
+			c.Ob("C12.R3", name, fd.Pos()).Undecided("body outside the path vocabulary: %s", why)
 			continue
 		}
-		operand := typeSwitchOperand(ts)
-		// operand must be an element of the receiver's spine: ego.val[param]
-		ix, ok := unparen(operand).(*ast.IndexExpr)
-		var par types.Object
-		if len(fd.Type.Params.List) == 1 && len(fd.Type.Params.List[0].Names) == 1 {
-			par = c.Info.Defs[fd.Type.Params.List[0].Names[0]]
+		isElem := func(t Term) bool {
+			if pr, ok := t.(TProj); ok && pr.K == 0 {
+				t = pr.X
+			}
+			ix, ok := t.(TIndex)
+			return ok && v.isRecvSpine(ix.X) && isParamTerm(ix.I, par)
 		}
-		c.Ob("C12.R3", name+"/operand", ts.Pos()).Check(ok && c.isRecvSpine(fd, ix.X) && c.obj(ix.Index) == par && par != nil,
-			"switches on the stored field at the argument index/key of the receiver's spine", "TypeOf does not switch on spine[argument]")
-		seen := map[string]string{}
-		for _, cl := range ts.Body.List {
-			cc := cl.(*ast.CaseClause)
-			var retName string
-			if len(cc.Body) == 1 {
-				if r, ok := cc.Body[0].(*ast.ReturnStmt); ok && len(r.Results) == 1 {
-					if k, ok := c.obj(r.Results[0]).(*types.Const); ok {
-						retName = k.Name()
+		seen := map[string]bool{}
+		bad := ""
+		for _, p := range paths {
+			if p.End != "return" || len(p.Vals) != 1 || len(p.Effects()) != 0 {
+				bad = "a path does not simply return a Type"
+				break
+			}
+			kc, ok := simplify(p.Vals[0]).(TConst)
+			if !ok {
+				bad = "a path returns a non-constant Type"
+				break
+			}
+			reported := consts[kc.Val.ExactString()]
+			kind := ""
+			for _, cd := range p.Conds() {
+				op, T, isTest := kindTestOf(cd.T)
+				if !isTest {
+					continue
+				}
+				if !isElem(op) {
+					bad = "a kind test examines something other than spine[argument]"
+					break
+				}
+				if cd.Truth {
+					if _, isBasic := T.(*types.Basic); isBasic || T == nil {
+						bad = "a case type does not identify a stored kind"
+						break
+					}
+					kind = c.kindOfType(T)
+					if kind == "" {
+						bad = "case type " + shortType(T) + " does not identify a stored kind"
 					}
 				}
 			}
-			if cc.List == nil {
-				c.Ob("C12.R3", name+"/default", cc.Pos()).Check(retName == "TypeUndefined", "default arm reports TypeUndefined", "default arm does not return TypeUndefined")
+			if bad != "" {
+				break
+			}
+			if kind == "" {
+				if reported != "undefined" {
+					bad = "a path on which no kind test succeeded reports Type" + reported + " instead of TypeUndefined"
+				}
 				continue
 			}
-			for _, te := range cc.List {
-				n++
-				T := c.typeOf(te)
-				k := c.kindOfType(T)
-				ob := c.Ob("C12.R3", name+"/case "+shortType(T), cc.Pos())
-				// the operand is the raw field: only wrapper pointers / container interfaces identify a kind
-				if _, isBasic := T.(*types.Basic); isBasic || k == "" {
-					ob.Fail("case type %s does not identify a stored kind", shortType(T))
-					continue
-				}
-				if prev, dup := seen[k]; dup {
-					ob.Fail("kind %s is reported by two arms (%s)", k, prev)
-					continue
-				}
-				seen[k] = retName
-				ob.Check(typeConstKind(retName) == k, "stored kind "+k+" is reported as "+retName, "stored kind "+k+" is reported as "+retName)
-			}
-		}
-		c.Ob("C12.R3", name+"/coverage", ts.Pos()).Check(len(seen) == 7, "all seven kinds have an arm", itoa(len(seen))+" kinds have an arm, expected 7")
-		// everything after/around the switch yields Undefined
-		for _, r := range returnsOf(fd.Body) {
-			if containsNode(ts, r) {
+			n++
+			ob := c.Ob("C12.R3", name+"/kind "+kind, posOfNode(p.Node))
+			if seen[kind] {
+				ob.Fail("kind %s is reported on two different paths", kind)
 				continue
 			}
-			k, _ := c.obj(r.Results[0]).(*types.Const)
-			c.Ob("C12.R3", name+"/fallthrough", r.Pos()).Check(k != nil && k.Name() == "TypeUndefined", "return outside the switch is TypeUndefined", "a return outside the kind switch is not TypeUndefined")
+			seen[kind] = true
+			ob.Check(reported == kind, "stored kind "+kind+" is reported as Type"+kind, "stored kind "+kind+" is reported as Type"+reported)
 		}
-		// typed getters
+		if bad != "" {
+			c.Ob("C12.R3", name, fd.Pos()).Fail("%s", bad)
+			continue
+		}
+		c.Ob("C12.R3", name+"/coverage", fd.Pos()).Check(len(seen) == 7, "all seven kinds are reported, each on its own path; every other path yields TypeUndefined", itoa(len(seen))+" kinds are reported, expected 7")
 		for _, m := range ifaceMethods(ct.Iface) {
 			if !strings.HasPrefix(m.Name(), "Get") || m.Name() == "Get" || m.Name() == "GetTF" {
 				continue
@@ -492,55 +522,55 @@ func c12R3(c *Ctx) {
 				continue
 			}
 			n++
-			c.Ob("C12.R3", gname, gd.Pos()).Check(typedGetterShape(c, gd, m), "asserts self.Get(arg) to the result type, panics exactly when the assertion fails, returns the asserted value",
-				"typed getter is not `v, ok := self.Get(arg).(T); if !ok { panic }; return v`")
+			why := typedGetterPaths(c, gd, m)
+			ob := c.Ob("C12.R3", gname, gd.Pos())
+			if why == "" {
+				ob.Ok("asserts self.Get(arg) to the result type, panics exactly when the assertion fails, returns the asserted value")
+			} else {
+				ob.Fail("typed getter is not `v, ok := self.Get(arg).(T); !ok => panic; return v`: %s", why)
+			}
 		}
 	}
 	c.R.Floor("C12.R3", n, 26)
 }
 
-func typedGetterShape(c *Ctx, gd *ast.FuncDecl, m *types.Func) bool {
-	if len(gd.Body.List) != 3 {
-		return false
+func typedGetterPaths(c *Ctx, gd *ast.FuncDecl, m *types.Func) string {
+	paths, why := c.runPaths(gd)
+	if why != "" {
+		return "body outside the path vocabulary: " + why
 	}
-	as, ok := gd.Body.List[0].(*ast.AssignStmt)
-	if !ok || len(as.Lhs) != 2 || len(as.Rhs) != 1 {
-		return false
-	}
-	ta, ok := unparen(as.Rhs[0]).(*ast.TypeAssertExpr)
-	if !ok || ta.Type == nil {
-		return false
-	}
+	v := c.view(gd)
+	par := soleParam(c, gd)
 	resT := m.Type().(*types.Signature).Results().At(0).Type()
-	if !types.Identical(c.typeOf(ta.Type), resT) {
-		return false
+	if len(paths) != 2 {
+		return "expected exactly two outcomes (kind matches / does not match)"
 	}
-	call, ok := unparen(ta.X).(*ast.CallExpr)
-	if !ok || len(call.Args) != 1 {
-		return false
+	for _, p := range paths {
+		conds := p.Conds()
+		if len(conds) != 1 || len(p.Effects()) != 0 {
+			return "more than the one kind decision"
+		}
+		pr, ok := conds[0].T.(TProj)
+		var as TAssert
+		if ok {
+			as, ok = pr.X.(TAssert)
+		}
+		if !ok || pr.K != 1 || !types.Identical(as.To, resT) {
+			return "the decision is not the comma-ok assertion to the result type " + shortType(resT)
+		}
+		nm, args, ok := v.selfCall(as.X)
+		if !ok || nm != "Get" || len(args) != 1 || !isParamTerm(args[0], par) {
+			return "the asserted value is not self.Get(argument)"
+		}
+		if conds[0].Truth {
+			if p.End != "return" || len(p.Vals) != 1 || !sameTerm(p.Vals[0], TProj{as, 0}) {
+				return "a matching kind does not return the asserted value"
+			}
+		} else if p.End != "panic" {
+			return "a non-matching kind does not panic"
+		}
 	}
-	sel, ok := unparen(call.Fun).(*ast.SelectorExpr)
-	if !ok || !c.isSelf(gd, sel.X) || c.callee(call) == nil || c.callee(call).Name() != "Get" {
-		return false
-	}
-	var par types.Object
-	if len(gd.Type.Params.List) == 1 && len(gd.Type.Params.List[0].Names) == 1 {
-		par = c.Info.Defs[gd.Type.Params.List[0].Names[0]]
-	}
-	if par == nil || c.obj(call.Args[0]) != par {
-		return false
-	}
-	v, okv := c.obj(as.Lhs[0]), c.obj(as.Lhs[1])
-	is, ok := gd.Body.List[1].(*ast.IfStmt)
-	if !ok || is.Else != nil || is.Init != nil {
-		return false
-	}
-	at := atomOf(is.Cond, false)
-	if !at.Neg || c.obj(at.Expr) != okv || okv == nil || !blockPanicsOnly(c, is.Body.List) {
-		return false
-	}
-	r, ok := gd.Body.List[2].(*ast.ReturnStmt)
-	return ok && len(r.Results) == 1 && c.obj(r.Results[0]) == v && v != nil
+	return ""
 }
 
 func c12R4(c *Ctx) {
